@@ -31,6 +31,17 @@ AQ = "rl_blox.blox.checkpointing.assess_performance_and_checkpoint"
 S = "checkpoint_state"
 
 
+def _const_under(cfg, e, assume, at):
+    """Value of a constant / conditional-constant expression under branch assumptions; None when not decidable."""
+    if isinstance(e, ast.Constant) and isinstance(e.value, (int, float)) and not isinstance(e.value, bool):
+        return e.value
+    if isinstance(e, ast.IfExp):
+        v = cfg.eval3(e.test, dict(assume), at)
+        if v is None:
+            return None
+        return _const_under(cfg, e.body if v else e.orelse, assume, at)
+    return None
+
 def run(ck, repo: Repo, tier: str):
     nf = NF(repo, inline_depth=2)
     fn = repo.func(AQ)
@@ -163,9 +174,21 @@ def run(ck, repo: Repo, tier: str):
         if bn.kind == "test" and isinstance(bn.ast, ast.If):
             lits += [(t, v) for t, v in cfg._lits(bn.ast.test, lab, bnode)]
     tv, uv = L.pos[2], L.pos[3]
+    # aliases (`done = terminated or truncated`) are represented by their expansion
+    lits = [(t, v) for t, v in lits if not (t.isidentifier() and t != "use_checkpoints" and cfg._expand_name(ast.Name(id=t, ctx=ast.Load()), n.id) is not None)]
     texts = {t for t, v in lits if v}
-    ok = "use_checkpoints" in texts and (f"{tv} or {uv}" in texts) and any(t.replace(" ", "") == "step>=learning_starts" for t in texts)
-    ck.ob("R5-release-loop", TQ, "assessment-guard", ok, f"called under {sorted(texts)}", "" if ok else "the assessment must run exactly at episode ends (terminated or truncated) with checkpoints enabled, after warm-up", loc(mi, c))
+    neg = {t for t, v in lits if not v}
+    has_ckpt = "use_checkpoints" in texts
+    has_end = f"{tv} or {uv}" in texts or f"{uv} or {tv}" in texts or f"({tv} or {uv})" in texts
+    # a warm-up gate on the step counter is not part of this property (C11 decides it) and is allowed; anything else skips assessments
+    extras = sorted(t for t in (texts - {"use_checkpoints", f"{tv} or {uv}", f"{uv} or {tv}"}) if "learning_starts" not in t and "logger" not in t) + sorted(f"not {t}" for t in neg if "logger" not in t)
+    ok = has_ckpt and has_end and not extras
+    why = ""
+    if not has_ckpt or not has_end:
+        why = "the assessment must run at every episode end (terminated or truncated) in checkpoint mode: otherwise episodes of the window are not counted"
+    elif extras:
+        why = f"the assessment is additionally conditioned on {extras}: some episode ends are skipped, so their steps are never released (or the window never closes)"
+    ck.ob("R5-release-loop", TQ, "assessment-guard", ok, f"called under {sorted(texts)}{(' and not ' + str(sorted(neg))) if neg else ''}", why, loc(mi, c))
     # release loop
     loops = [m for m in cfg.nodes if m.kind == "for" and "training_steps" in ast.unparse(m.ast.iter)]
     ck.need(len(loops) == 1, f"{TQ}: release loop not found")
@@ -185,10 +208,21 @@ def run(ck, repo: Repo, tier: str):
     ts_calls = [m for m in cfg.nodes if m.ast is not None and m.kind == "stmt" and lp.id in cfg.enclosing_loops(m.id) for x in ast.walk(m.ast) if isinstance(x, ast.Call) and dotted(x.func) == "_train_step"]
     ok = len(ts_calls) == 1 and len(cfg.control_deps(ts_calls[0].id)) == len(cfg.control_deps(lp.id)) + 1
     ck.ob("R5-release-loop", TQ, "one-train-step-per-iteration", ok, f"{len(ts_calls)} _train_step call(s) in the loop body", "" if ok else "each iteration must perform exactly one training step", loc(mi, lp.ast))
-    # default for the non-checkpoint mode: one step per environment step
-    defs = [m for m in cfg.nodes if m.kind == "stmt" and isinstance(m.ast, ast.Assign) and dotted(m.ast.targets[0]) == "training_steps"]
-    ok = len(defs) == 1 and ast.unparse(defs[0].ast.value) == "0 if use_checkpoints else 1"
-    ck.ob("R5-release-loop", TQ, "default-release", ok, f"training_steps = {ast.unparse(defs[0].ast.value) if defs else None}", "" if ok else "without an assessment result 0 steps (checkpoint mode) resp. 1 step (plain mode) are released", loc(mi, defs[0].ast if defs else L.fn))
+    # in checkpoint mode nothing is released unless an assessment says so: every other definition of the trip count that can
+    # reach the release loop with use_checkpoints true must be the constant 0 (otherwise steps are released twice)
+    n_def = 0
+    for d in cfg.defs_of(lp.id, "training_steps"):
+        if d.node == n.id:
+            continue
+        dl = [(t, v) for bnode, lab in cfg.control_deps(d.node) if cfg.nodes[bnode].kind == "test" and isinstance(cfg.nodes[bnode].ast, ast.If) for t, v in cfg._lits(cfg.nodes[bnode].ast.test, lab, bnode)]
+        if ("use_checkpoints", False) in dl:
+            continue  # plain mode: outside this property
+        n_def += 1
+        val = _const_under(cfg, d.value, {"use_checkpoints": True}, d.node) if d.kind == "assign" and d.value is not None else None
+        if val is None:
+            raise AnalysisError(f"{TQ}: `{short(cfg.nodes[d.node].ast, 60)}` - cannot evaluate the number of released steps in checkpoint mode (unrecognised idiom)")
+        ck.ob("R5-release-loop", TQ, f"default-release:{short(cfg.nodes[d.node].ast, 40)}", val == 0, f"`{short(cfg.nodes[d.node].ast, 60)}` = {val} when use_checkpoints", "" if val == 0 else "in checkpoint mode only the assessment may release training iterations: this default releases steps that the window will release again", loc(mi, cfg.nodes[d.node].ast))
+    ck.ob("R5-release-loop", TQ, "default-release", n_def >= 1, f"{n_def} default definition(s) of training_steps reach the release loop in checkpoint mode", "" if n_def else "no default for steps without an assessment (previous trip count would be reused)", loc(mi, lp.ast))
     # checkpoint copy
     cps = [(m, x) for m in cfg.nodes if m.ast is not None and m.kind == "stmt" for x in ast.walk(m.ast) if isinstance(x, ast.Call) and dotted(x.func) == "hard_target_net_update" and len(x.args) == 2 and dotted(x.args[1]) == "checkpoint"]
     ck.need(len(cps) == 1, f"{TQ}: checkpoint copy not found")
